@@ -21,6 +21,7 @@ ASSUME = [
     "shipped schemas = /repo/schemas/*.json; generated schemas = output of /repo's vespertide-schema-gen built from the current working tree (cargo --frozen, target dir .cache/target_repo), both translated by tools/schema2coq.py (syntactic, trusted; unknown keywords make it fail)",
     "the validation relation `valid` (coq/serde/Model/SchemaOf.v) is tied to python-jsonschema 4.26 Draft2020-12 on every document of every run (K-schema, compared inside Coq)",
     "proved for ALL values / documents (no sampling): valid_encode_* (what the serialisers write validates), decode_of_valid_table / _plan (a document without repeated members that validates under the strict reading of the schema - `format` asserted as the Rust width of the field, 'integer' excluding 1.0: the complement of the class C15-integer-width-not-in-schema, Model/SchemaStrict.v - is accepted by the parser model), both transported to the shipped schema terms on every run through doc_eqb_eq; fuel irrelevance of the validator; the class refutations. The strict reading itself has no external reference implementation (python-jsonschema does not know uint32): K-schema ties the plain validator, the strict one differs by two stated clauses",
+    "JSON / YAML *text* layer: not modelled in Gallina (Json.v starts at parsed values); it is tied by test only: the K-serde text round trips, and the real-binary text-layer stream (.json model / migration files with surrogate-pair escapes, \\u0000-class escapes, raw DEL / C1 / U+2028, \\/ and numeric defaults at the i64 / u64 / f64 boundaries, written with ensure_ascii on and off) where the binary must accept a file iff python-jsonschema accepts it and serde_json parses it",
     "real-binary stream: `vespertide init`, `new [--format]` under every modelFormat and `revision` under every migrationFormat; YAML files are read back with the tool's own serde_yaml (hserde parse yaml2json) before schema validation; the empty `new` template is completed with an id primary-key column before the load test",
     "documents that repeat a member are outside the quantifier of 'schema-valid documents' (a validator sees the parsed map, the parser sees the text)",
     "the parser side is the K-serde model of C12 (see its assumptions: YAML text layer not modelled, integer literals in [2^63,2^64) at DefaultValue positions excluded)",
@@ -403,8 +404,10 @@ def binary_stream(chk, tier, seed):
     r = json.load(open(outp))
     chk.cov["binary_stream"] = {"projects": r["projects"], "files_checked": r["files_checked"], "problems": len(r["problems"]),
                                 "combinations": "modelFormat x (no override | --format json|yaml|yml) x migrationFormat (cycled)"}
-    chk.cov["evaluations"] += r["files_checked"]
-    chk.cov["traces_validated_against_impl"] += r["files_checked"]
+    tl = r.get("text_layer", {})
+    chk.cov["binary_stream"]["json_text_layer (files the loader reads: .json -> serde_json; same text through serde_yaml for contrast)"] = {k: v for k, v in tl.items() if k != "cases"}
+    chk.cov["evaluations"] += r["files_checked"] + tl.get("documents", 0)
+    chk.cov["traces_validated_against_impl"] += r["files_checked"] + tl.get("documents", 0)
     if r["cases"]:
         chk.cov["samples"] = chk.cov.get("samples", []) + [{"kind": "binary-stream", **{k: r["cases"][5][k] for k in ("modelFormat", "new_format_override", "migrationFormat", "files")}}]
     for pr in r["problems"][:5]:
@@ -449,7 +452,10 @@ def replay(path):
         binary_stream(chk, "quick", 1)
         same = [v for v in chk.violations]
         r = json.load(open(os.path.join(CACHE, "c15bin_result.json")))
-        hit = [p for p in r["problems"] if (p.get("modelFormat"), p.get("new_format_override")) == (inp.get("modelFormat"), inp.get("new_format_override"))]
+        if inp.get("case"):
+            hit = [p for p in r["problems"] if p.get("case") == inp.get("case")]
+        else:
+            hit = [p for p in r["problems"] if (p.get("modelFormat"), p.get("new_format_override")) == (inp.get("modelFormat"), inp.get("new_format_override"))]
         for p in hit:
             print(p["why"])
         if hit:
